@@ -120,13 +120,28 @@ def f_inline(xs, k):
     return s + 1
 
 
-EXC = {"IndexError": "Ex.index", "ValueError": "Ex.value"}
+class Over(ValueError):
+    pass
+
+
+def f_subclass(xs, k):
+    try:
+        if k in xs:
+            raise Over("exists")
+        first = head(xs)
+    except ValueError:          # also catches Over, a subclass
+        first = -7
+    return first
+
+
+EXC = {"IndexError": "Ex.index", "ValueError": "Ex.value", "Over": "Ex.over"}
 
 
 def E(**kw):
     kw.setdefault("ret", ".ok ({e})")
     kw.setdefault("exc", EXC)
     kw.setdefault("diverge", ".error Ex.fuel")
+    kw.setdefault("exc_parents", {"Over": ["ValueError"]})
     kw.setdefault("expr", [])
     kw["expr"] = list(kw["expr"]) + [("head($x)", "(hd {x})", "bind")]
     return T.Rules16(**kw)
@@ -146,6 +161,9 @@ CASES = [
      E(), "xfo"),
     (f_while_pop, "(xs : %s) : Except Ex Int" % LI, {"xs": "xs"}, E(multi=POPM, fuel="(xs.length + 1)"), "x"),
     (f_with, "(xs : %s) : Except Ex Int" % LI, {"xs": "xs"}, E(withs=[("opened($x)", "{x}")]), "x"),
+    # `except ValueError` catches a subclass the vocabulary knows
+    (f_subclass, "(xs : %s) (k : Int) : Except Ex Int" % LI, {"xs": "xs", "k": "k"},
+     E(expr=[("$a in $l", "(({l}).contains {a})", "bool")]), "xk"),
     # a helper of the same module without a rule: translated and inlined at both call sites; `k in (2, 4)`
     (f_inline, "(xs : %s) (k : Int) : Except Ex Int" % LI, {"xs": "xs", "k": "k"}, E(expr=[("[$x]", "[{x}]")]), "xk"),
 ]
@@ -154,10 +172,10 @@ KS = [0, 2, 4, 9]
 PRELUDE = """import MenpoModel.Core.C16PyX
 open MenpoModel.C16 MenpoModel.C16.PyX
 set_option linter.unusedVariables false
-inductive Ex where | index | value | fuel deriving DecidableEq, Repr
+inductive Ex where | index | value | fuel | over deriving DecidableEq, Repr
 def hd (l : List Int) : Except Ex Int := match l with | [] => .error .index | a :: _ => .ok a
 def pop (l : List Int) : Except Ex (Int × List Int) := match l with | [] => .error .index | a :: t => .ok (a, t)
-def show_ (r : Except Ex Int) : String := match r with | .ok v => s!"ok {v}" | .error .index => "IndexError" | .error .value => "ValueError" | .error .fuel => "fuel"
+def show_ (r : Except Ex Int) : String := match r with | .ok v => s!"ok {v}" | .error .index => "IndexError" | .error .value => "ValueError" | .error .fuel => "fuel" | .error .over => "Over"
 """
 
 
